@@ -73,6 +73,13 @@ Definition spec_stats_okb (dim : Z) (xs : list tensor) (bessel : bool) (tol : Q)
                     qclose tol (qsq (nth i std 0)) (pop_var bessel (pooled dim xs i)))
           (seq 0 (length mean)).
 
+(* the running buffers (count, sum, sum of squares) are those of the pooled data *)
+Definition spec_buffers_okb (dim : Z) (xs : list tensor) (tol : Q) (c : Q) (sm sq : list Q) : bool :=
+  Qeq_bool c (qofnat (frames dim xs)) && (length sm =? length sq)%nat &&
+  forallb (fun i => qclose tol (nth i sm 0) (Qsum (pooled dim xs i)) &&
+                    qclose tol (nth i sq 0) (Qsum (map qsq (pooled dim xs i))))
+          (seq 0 (length sm)).
+
 (* "normalising with them gives each coefficient zero mean and unit variance over the pooled
    data": ys are the normalised tensors; coefficients flagged in [degenerate] (zero pooled
    variance) are exempt from the unit-variance part *)
